@@ -9,6 +9,10 @@ def T(id, old, new, file="eqsig/single.py", **kw):
 G = "eqsig/fns/generic.py"
 SEL = "        elif cut_off[0] is None:\n            filter_type = 'low'\n            cut_off = cut_off[1]\n        else:\n            filter_type = 'high'\n            cut_off = cut_off[0]\n"
 VARIANTS = [
+    B("gibbs-buffer-shorter-than-record", "            nindex = int(np.ceil(np.log2(len(mote)))) + gibbs_extra\n", "            nindex = int(np.ceil(np.log2(len(mote)))) - gibbs_extra\n", "R-BP-LEN"),
+    B("gibbs-buffer-not-a-power", "            new_len = 2 ** nindex\n", "            new_len = 2 * nindex\n", "R-BP-LEN"),
+    B("gibbs-window-past-the-end", "            diff_len = new_len - org_len\n", "            diff_len = new_len + org_len\n", "R-BP-LEN"),
+    T("gibbs-start-offset-one", "            if remove_gibbs == 'start':\n                s_len = 0\n", "            if remove_gibbs == 'start':\n                s_len = 1\n"),
     B("np-Array-regression", "isinstance(cut_off, np.ndarray)", "isinstance(cut_off, np.Array)", "R-LIBNS"),
     B("np-float-type", "        sampling_rate = 1.0 / self.dt\n", "        sampling_rate = np.float(1.0) / self.dt\n", "R-LIBNS"),
     B("low-high-swapped", SEL, SEL.replace("'low'", "'XX'").replace("'high'", "'low'").replace("'XX'", "'high'"), "R-BP-TYPE"),
